@@ -1,7 +1,8 @@
 import FiberModel.C14.HeapLemmas
 /-
 C14 — lemmas about the handler model: the invariant of the state protected by `mux` is kept by both
-critical sections, which therefore cannot panic.
+critical sections under every outcome of the storage calls, so they cannot panic; for the keys whose
+`Set`/`Delete` calls all went through, entry, body and heap entry stay in step.
 -/
 namespace C14
 open B
@@ -54,7 +55,35 @@ theorem lookup_set (s : Store) (k k' : Key) (sl : Slot) :
     rw [← this]
     simp [Store.set, Store.lookup, h']
 
-/-! ### the invariant of the state protected by `mux` -/
+theorem blookup_erase (s : BStore) (k k' : Key) :
+    (BStore.erase s k).lookup k' = if k' = k then none else s.lookup k' := by
+  unfold BStore.erase
+  induction s with
+  | nil => simp [BStore.lookup]
+  | cons p t ih =>
+    rcases p with ⟨pk, psl⟩
+    by_cases h1 : pk = k
+    · subst h1
+      by_cases h2 : k' = pk
+      · subst h2; simp [BStore.lookup, List.filter_cons] at ih ⊢; exact ih
+      · have : ¬ pk = k' := fun h => h2 h.symm
+        simp [BStore.lookup, List.filter_cons, h2, this] at ih ⊢; exact ih
+    · by_cases h2 : k' = k
+      · subst h2
+        simp [BStore.lookup, List.filter_cons, h1] at ih ⊢; exact ih
+      · by_cases h3 : pk = k'
+        · simp [BStore.lookup, List.filter_cons, h1, h2, h3]
+        · simp [BStore.lookup, List.filter_cons, h1, h2, h3] at ih ⊢; exact ih
+
+theorem blookup_set (s : BStore) (k k' : Key) (sl : BSlot) :
+    (BStore.set s k sl).lookup k' = if k' = k then some sl else s.lookup k' := by
+  by_cases h : k' = k
+  · subst h; simp [BStore.set, BStore.lookup]
+  · have h' : ¬ k = k' := fun e => h e.symm
+    have := blookup_erase s k k'
+    simp only [h, if_false] at this ⊢
+    rw [← this]
+    simp [BStore.set, BStore.lookup, h']
 
 theorem nodup_erase {s : Store} (h : (s.map (·.1)).Nodup) (k : Key) : ((s.erase k).map (·.1)).Nodup := by
   unfold Store.erase
@@ -70,117 +99,34 @@ theorem nodup_set {s : Store} (h : (s.map (·.1)).Nodup) (k : Key) (sl : Slot) :
   have := (List.mem_filter.mp hp).2
   simp [hpk] at this
 
-structure ShInv (cfg : Config) (sh : Shared) : Prop where
-  hinv : HInv sh.heap
-  nodup : (sh.store.map (·.1)).Nodup
-  acc : sh.stored = sumBytes sh.heap.live
-  bound : cfg.maxBytes > 0 → sh.stored ≤ cfg.maxBytes
-  unused : cfg.maxBytes = 0 → sh.heap = Heap.empty
-  tracked : cfg.maxBytes > 0 → Tracked sh
+theorem bnodup_erase {s : BStore} (h : (s.map (·.1)).Nodup) (k : Key) : ((s.erase k).map (·.1)).Nodup := by
+  unfold BStore.erase
+  exact List.Nodup.sublist (List.Sublist.map _ List.filter_sublist) h
 
-theorem ShInv_empty (cfg : Config) : ShInv cfg Shared.empty :=
-  ⟨HInv_empty, by simp [Shared.empty], rfl, fun _ => Nat.zero_le _, fun _ => rfl, fun _ k sl h => by simp [Shared.empty, Store.lookup] at h⟩
+theorem bnodup_set {s : BStore} (h : (s.map (·.1)).Nodup) (k : Key) (sl : BSlot) : ((s.set k sl).map (·.1)).Nodup := by
+  unfold BStore.set
+  simp only [List.map_cons, List.nodup_cons]
+  refine ⟨?_, bnodup_erase h k⟩
+  intro hm
+  rcases List.mem_map.mp hm with ⟨p, hp, hpk⟩
+  unfold BStore.erase at hp
+  have := (List.mem_filter.mp hp).2
+  simp [hpk] at this
 
-/-- removing the heap entry of one key and erasing that key keeps the other keys tracked -/
-theorem tracked_after_remove {sh : Shared} (ht : Tracked sh) {h' : Heap} {x : HEntry} {k : Key}
-    (hx : sh.heap.find x.idx = some x) (hk : x.key = k)
-    (hfind : ∀ y, h'.find y = if y = x.idx then none else sh.heap.find y) :
-    Tracked { store := sh.store.erase k, heap := h', stored := 0 } := by
-  intro k' sl hl
-  simp only at hl
-  rw [lookup_erase] at hl
-  by_cases hkk : k' = k
-  · simp [hkk] at hl
-  · simp only [hkk, if_false] at hl
-    rcases ht k' sl hl with ⟨e, he, hek, heb⟩
-    refine ⟨e, ?_, hek, heb⟩
-    show h'.find sl.item.heapidx = some e
-    rw [hfind]
-    have : sl.item.heapidx ≠ x.idx := by
-      intro heq
-      rw [heq, hx] at he
-      cases he
-      exact hkk (hek.symm.trans hk)
-    simp [this, he]
-
-theorem Tracked_congr {a b : Shared} (hs : a.store = b.store) (hh : a.heap = b.heap) (h : Tracked a) : Tracked b := by
-  intro k sl hl; rw [← hs] at hl; rw [← hh]; exact h k sl hl
-
-/-- erasing a key (without touching the heap) keeps everything tracked -/
-theorem tracked_erase {sh : Shared} (ht : Tracked sh) (k : Key) :
-    Tracked { sh with store := sh.store.erase k } := by
-  intro k' sl hl
-  simp only at hl
-  rw [lookup_erase] at hl
-  by_cases hkk : k' = k
-  · simp [hkk] at hl
-  · simp only [hkk, if_false] at hl
-    exact ht k' sl hl
-
-/-! ### first critical section -/
-
-theorem sec1Expire_ok {cfg : Config} (hmb : cfg.maxBytes < 2 ^ 63) {sh : Shared} (hi : ShInv cfg sh)
-    (key : Key) (heapidx : Nat) :
-    ∃ sh', sec1Expire cfg sh key heapidx = .pass sh' ∧ ShInv cfg sh' := by
-  unfold sec1Expire
-  simp only
-  by_cases hmbp : cfg.maxBytes > 0
-  · rw [if_pos hmbp]
-    have hstored_lt : sh.stored < U64 := by
-      have := hi.bound hmbp; have := U64_pos; omega
-    rcases remove_ok hi.hinv heapidx key with ⟨x, hfx, hkx, h', hr, hinv', _, hfind', hsum', _⟩ | ⟨_, hr⟩
-    · simp only [Shared.deleteKey]
-      rw [hr]
-      simp only
-      have hle : x.bytes ≤ sh.stored := by rw [hi.acc]; omega
-      refine ⟨_, rfl, hinv', nodup_erase hi.nodup key, ?_, ?_, ?_, ?_⟩
-      · show usub sh.stored x.bytes = sumBytes h'.live
-        rw [usub_eq hle hstored_lt, hi.acc]; omega
-      · intro _
-        show usub sh.stored x.bytes ≤ cfg.maxBytes
-        rw [usub_eq hle hstored_lt]; have := hi.bound hmbp; omega
-      · intro h0; omega
-      · intro _
-        have hxi : x.idx = heapidx := ((find_some_iff hi.hinv _ _).mp hfx).1
-        have := tracked_after_remove (hi.tracked hmbp) (x := x) (k := key) (h' := h') (by rw [hxi]; exact hfx) hkx
-          (by intro y; rw [hxi]; exact hfind' y)
-        exact Tracked_congr rfl rfl this
-    · simp only [Shared.deleteKey]
-      rw [hr]
-      simp only
-      refine ⟨_, rfl, hi.hinv, nodup_erase hi.nodup key, hi.acc, hi.bound, hi.unused, ?_⟩
-      intro hp
-      exact tracked_erase (hi.tracked hp) key
-  · rw [if_neg hmbp]
-    refine ⟨_, rfl, hi.hinv, nodup_erase hi.nodup key, hi.acc, hi.bound, hi.unused, ?_⟩
-    intro hp; exact absurd hp hmbp
-
-theorem sec1Found_ok {cfg : Config} (hmb : cfg.maxBytes < 2 ^ 63) {sh : Shared} (hi : ShInv cfg sh)
-    (ts : Nat) (q : Req) (key : Key) (e : Item) :
-    (sec1Found cfg sh ts q key e = .hit (replay cfg e ts) ∧ itemExpired e ts = false ∧ e.exp ≠ 0 ∧
-        hasDirective q.cc Facts.noCache = false) ∨
-    (∃ sh', sec1Found cfg sh ts q key e = .pass sh' ∧ ShInv cfg sh') := by
-  unfold sec1Found
-  by_cases hexp : itemExpired e ts = true
-  · rw [if_pos hexp]; right; exact sec1Expire_ok hmb hi key e.heapidx
-  · rw [if_neg hexp]
-    by_cases hhit : (e.exp != 0 && !hasDirective q.cc Facts.noCache) = true
-    · rw [if_pos hhit]; left
-      have : e.exp ≠ 0 ∧ hasDirective q.cc Facts.noCache = false := by simpa using hhit
-      exact ⟨rfl, by simpa using hexp, this.1, this.2⟩
-    · rw [if_neg hhit]; right; exact ⟨sh, rfl, hi⟩
-
-theorem sec1_ok {cfg : Config} (hmb : cfg.maxBytes < 2 ^ 63) {sh : Shared} (hi : ShInv cfg sh)
-    (ts uts : Nat) (q : Req) (key : Key) :
-    (∃ o, sec1 cfg sh ts uts q key = .hit o) ∨ (∃ sh', sec1 cfg sh ts uts q key = .pass sh' ∧ ShInv cfg sh') := by
-  unfold sec1
-  cases lookup1 cfg sh uts key with
-  | none => right; exact ⟨sh, rfl, hi⟩
-  | some e =>
-    simp only
-    rcases sec1Found_ok hmb hi ts q key (applyInv q ts e) with ⟨h, _⟩ | h
-    · left; exact ⟨_, h⟩
-    · right; exact h
+theorem mem_markDirty (d : List Key) (k k' : Key) (failed : Bool) :
+    k' ∈ markDirty d k failed ↔ (k' = k ∧ failed = true) ∨ (k' ≠ k ∧ k' ∈ d) := by
+  unfold markDirty
+  cases failed <;> simp [List.mem_filter]
+  · constructor
+    · rintro ⟨a, b⟩; exact ⟨b, a⟩
+    · rintro ⟨a, b⟩; exact ⟨b, a⟩
+  · constructor
+    · rintro (h | ⟨a, b⟩)
+      · exact Or.inl h
+      · exact Or.inr ⟨b, a⟩
+    · rintro (h | ⟨a, b⟩)
+      · exact Or.inl h
+      · exact Or.inr ⟨b, a⟩
 
 /-! ### what the sections do to the storage contents -/
 
@@ -197,45 +143,308 @@ theorem storeSub_erase (s : Store) (k : Key) : StoreSub (s.erase k) s := by
   · simp [hk] at h
   · simpa [hk] using h
 
-theorem sec1Expire_sub {cfg : Config} {sh sh' : Shared} {key : Key} {heapidx : Nat}
-    (h : sec1Expire cfg sh key heapidx = .pass sh') : StoreSub sh'.store sh.store := by
+theorem deleteKey_sub (cfg : Config) (sh : Shared) (k : Key) (d1 d2 : Fault) :
+    StoreSub (sh.deleteKey cfg k d1 d2).store sh.store := by
+  unfold Shared.deleteKey
+  simp only
+  split
+  · exact StoreSub.refl _
+  · exact storeSub_erase _ _
+
+/-! ### the invariant of the state protected by `mux` -/
+
+/-- the stored item of `k` is tracked by a live heap entry of its key and size -/
+def TrackedK (sh : Shared) (k : Key) : Prop :=
+  ∀ sl, sh.store.lookup k = some sl →
+    ∃ e, sh.heap.find sl.item.heapidx = some e ∧ e.key = k ∧ e.bytes = sl.item.body.length
+
+/-- a live heap entry of `k` tracks something the cache has stored for `k` -/
+def CoveredK (sh : Shared) (k : Key) : Prop :=
+  ∀ (p : Nat) (e : HEntry), sh.heap.live[p]? = some e → e.key = k → ∃ sl, sh.store.lookup k = some sl
+
+/-- entry and separately stored body of `k` belong together (same body, same storage expiry) -/
+def SyncK (sh : Shared) (k : Key) : Prop :=
+  sh.bodies.lookup k = (sh.store.lookup k).map fun sl => ⟨sl.item.body, sl.sexp⟩
+
+def CleanK (cfg : Config) (sh : Shared) (k : Key) : Prop :=
+  (cfg.maxBytes > 0 → TrackedK sh k) ∧ CoveredK sh k ∧ SyncK sh k
+
+/-- The invariant. The heap, its key map and the count are consistent whatever the storage does; entry,
+    body and heap entry of a key are in step unless a `Set`/`Delete` of that key failed and has not been
+    made good (`dirty`). `H`: keys whose heap entry the running section has already dropped while their
+    entry is still stored (closed again by the `Delete`s / `Set`s that follow). -/
+structure ShInvX (cfg : Config) (sh : Shared) (H : Key → Prop) : Prop where
+  hinv : HInv sh.heap
+  kinv : KInv sh.heap
+  nodup : (sh.store.map (·.1)).Nodup
+  bnodup : (sh.bodies.map (·.1)).Nodup
+  acc : sh.stored = sumBytes sh.heap.live
+  bound : cfg.maxBytes > 0 → sh.stored ≤ cfg.maxBytes
+  unused : cfg.maxBytes = 0 → sh.heap = Heap.empty
+  clean : ∀ k, k ∉ sh.dirty → ¬ H k → CleanK cfg sh k
+
+abbrev ShInv (cfg : Config) (sh : Shared) : Prop := ShInvX cfg sh fun _ => False
+
+theorem ShInvX.weaken {cfg : Config} {sh : Shared} {H H' : Key → Prop} (hi : ShInvX cfg sh H) (hh : ∀ k, H k → H' k) :
+    ShInvX cfg sh H' :=
+  ⟨hi.hinv, hi.kinv, hi.nodup, hi.bnodup, hi.acc, hi.bound, hi.unused, fun k hk hn => hi.clean k hk (fun h => hn (hh k h))⟩
+
+theorem ShInv_empty (cfg : Config) : ShInv cfg Shared.empty :=
+  ⟨HInv_empty, KInv_empty, by simp [Shared.empty], by simp [Shared.empty], rfl, fun _ => Nat.zero_le _, fun _ => rfl,
+   fun k _ _ => ⟨fun _ sl h => by simp [Shared.empty, Store.lookup] at h,
+     fun p e h => by simp [Shared.empty, Heap.empty] at h,
+     by simp [SyncK, Shared.empty, Store.lookup, BStore.lookup]⟩⟩
+
+theorem ShInvX.tracked {cfg : Config} {sh : Shared} (hi : ShInv cfg sh) (hpos : cfg.maxBytes > 0) (hd : sh.dirty = []) :
+    Tracked sh := by
+  intro k sl hl
+  exact (hi.clean k (by simp [hd]) (fun h => h)).1 hpos sl hl
+
+/-- every live heap entry tracks a key the cache has stored (and neither deleted nor replaced) -/
+def Covered (sh : Shared) : Prop :=
+  ∀ (p : Nat) (e : HEntry), sh.heap.live[p]? = some e → ∃ sl, sh.store.lookup e.key = some sl
+
+theorem ShInvX.covered {cfg : Config} {sh : Shared} (hi : ShInv cfg sh) (hd : sh.dirty = []) : Covered sh := by
+  intro p e hp
+  exact (hi.clean e.key (by simp [hd]) (fun h => h)).2.1 p e hp rfl
+
+/-- a live entry is found under its own index, and the key map points to it -/
+theorem live_find {h : Heap} (hi : HInv h) {p : Nat} {e : HEntry} (hp : h.live[p]? = some e) : h.find e.idx = some e :=
+  (find_some_iff hi _ _).mpr ⟨rfl, p, hp⟩
+
+theorem live_klookup {h : Heap} (hi : HInv h) (hk : KInv h) {p : Nat} {e : HEntry} (hp : h.live[p]? = some e) :
+    klookup h.keys e.key = some e.idx :=
+  (hk e.key e.idx).mpr ⟨e, live_find hi hp, rfl⟩
+
+/-- no entry is tracked for `k` -/
+theorem no_live_of_klookup_none {h : Heap} (hi : HInv h) (hk : KInv h) {k : Key} (hn : klookup h.keys k = none)
+    {p : Nat} {e : HEntry} (hp : h.live[p]? = some e) : e.key ≠ k := by
+  intro heq
+  have := live_klookup hi hk hp
+  rw [heq, hn] at this; cases this
+
+/-! ### `heap.removeKey(key)` + `storedBytes -= size` -/
+
+/-- `dropTracked` only touches the heap and the count -/
+theorem dropTracked_frame {sh sh' : Shared} {key : Key} (h : dropTracked sh key = some sh') :
+    sh'.store = sh.store ∧ sh'.bodies = sh.bodies ∧ sh'.dirty = sh.dirty := by
+  unfold dropTracked at h
+  split at h
+  · cases h
+  · cases h; exact ⟨rfl, rfl, rfl⟩
+  · cases h; exact ⟨rfl, rfl, rfl⟩
+
+/-- dropping what is tracked for `key` never panics; afterwards nothing is tracked for `key`, which
+    becomes the hole of the invariant -/
+theorem dropTracked_ok {cfg : Config} (hmb : cfg.maxBytes < 2 ^ 63) (hpos : cfg.maxBytes > 0) {sh : Shared}
+    {H : Key → Prop} (hi : ShInvX cfg sh H) (key : Key) :
+    ∃ sh', dropTracked sh key = some sh' ∧ ShInvX cfg sh' (fun k => H k ∨ k = key) ∧ sh'.stored ≤ sh.stored ∧
+      klookup sh'.heap.keys key = none := by
+  unfold dropTracked
+  have hstored_lt : sh.stored < U64 := by
+    have := hi.bound hpos; have := U64_pos; omega
+  rcases removeKey_ok hi.hinv hi.kinv key with ⟨hnone, hr⟩ | ⟨x, hfx, hkx, h', hr, hinv', hkinv', _, hfind', hsum', _, hnone'⟩
+  · rw [hr]
+    refine ⟨_, rfl, ⟨hi.hinv, hi.kinv, hi.nodup, hi.bnodup, hi.acc, hi.bound, hi.unused, ?_⟩, Nat.le_refl _, hnone⟩
+    intro k hk hn
+    exact hi.clean k hk (fun h => hn (Or.inl h))
+  · rw [hr]
+    have hle : x.bytes ≤ sh.stored := by rw [hi.acc]; omega
+    refine ⟨_, rfl, ⟨hinv', hkinv', hi.nodup, hi.bnodup, ?_, ?_, ?_, ?_⟩, ?_, hnone'⟩
+    · show usub sh.stored x.bytes = sumBytes h'.live
+      rw [usub_eq hle hstored_lt, hi.acc]; omega
+    · intro _
+      show usub sh.stored x.bytes ≤ cfg.maxBytes
+      rw [usub_eq hle hstored_lt]; have := hi.bound hpos; omega
+    · intro h0; omega
+    · intro k hk hhole
+      have hkk : k ≠ key := fun h => hhole (Or.inr h)
+      rcases hi.clean k hk (fun h => hhole (Or.inl h)) with ⟨ht, hc, hs⟩
+      refine ⟨?_, ?_, hs⟩
+      · intro hp sl hl
+        rcases ht hp sl hl with ⟨e, he, hek, heb⟩
+        refine ⟨e, ?_, hek, heb⟩
+        show h'.find sl.item.heapidx = some e
+        rw [hfind']
+        have : sl.item.heapidx ≠ x.idx := by
+          intro heq; rw [heq, hfx] at he; cases he; exact hkk (hek.symm.trans hkx)
+        simp [this, he]
+      · intro p e hp hek
+        have hf' : h'.find e.idx = some e := live_find hinv' hp
+        rw [hfind'] at hf'
+        by_cases hie : e.idx = x.idx
+        · simp [hie] at hf'
+        · simp only [hie, if_false] at hf'
+          rcases (find_some_iff hi.hinv _ _).mp hf' with ⟨_, p0, hp0⟩
+          exact hc p0 e hp0 hek
+    · show usub sh.stored x.bytes ≤ sh.stored
+      rw [usub_eq hle hstored_lt]; omega
+
+/-! ### `deleteKey` -/
+
+theorem deleteKey_frame (cfg : Config) (sh : Shared) (k : Key) (d1 d2 : Fault) :
+    (sh.deleteKey cfg k d1 d2).heap = sh.heap ∧ (sh.deleteKey cfg k d1 d2).stored = sh.stored := ⟨rfl, rfl⟩
+
+theorem deleteKey_lookup_other (cfg : Config) (sh : Shared) (k : Key) (d1 d2 : Fault) {k' : Key} (h : k' ≠ k) :
+    (sh.deleteKey cfg k d1 d2).store.lookup k' = sh.store.lookup k' ∧
+    (sh.deleteKey cfg k d1 d2).bodies.lookup k' = sh.bodies.lookup k' := by
+  unfold Shared.deleteKey
+  simp only
+  constructor
+  · split
+    · rfl
+    · rw [lookup_erase]; simp [h]
+  · split
+    · rfl
+    · rw [blookup_erase]; simp [h]
+
+/-- deleting `k` when nothing is tracked for it keeps the invariant; a hole at `k` is closed: both `Delete`s
+    went through and nothing is left of `k`, or one failed and `k` is dirty -/
+theorem deleteKey_ok {cfg : Config} {sh : Shared} {H : Key → Prop} (hi : ShInvX cfg sh H) (k : Key)
+    (d1 d2 : Fault) (hnk : klookup sh.heap.keys k = none) :
+    ShInvX cfg (sh.deleteKey cfg k d1 d2) (fun k' => H k' ∧ k' ≠ k) := by
+  have hst : (sh.deleteKey cfg k d1 d2).store = (if (cfg.ext && d1.fails) = true then sh.store else sh.store.erase k) := rfl
+  have hbo : (sh.deleteKey cfg k d1 d2).bodies = (if (cfg.ext && d2.fails) = true then sh.bodies else sh.bodies.erase k) := rfl
+  have hdi : (sh.deleteKey cfg k d1 d2).dirty = markDirty sh.dirty k (cfg.ext && d1.fails || cfg.ext && d2.fails) := rfl
+  refine ⟨hi.hinv, hi.kinv, ?_, ?_, hi.acc, hi.bound, hi.unused, ?_⟩
+  · rw [hst]; split
+    · exact hi.nodup
+    · exact nodup_erase hi.nodup k
+  · rw [hbo]; split
+    · exact hi.bnodup
+    · exact bnodup_erase hi.bnodup k
+  · intro k' hk' hhole
+    rw [hdi, mem_markDirty] at hk'
+    by_cases hkk : k' = k
+    · -- both deletes went through: nothing is left of `k`
+      subst hkk
+      have hok : (cfg.ext && d1.fails || cfg.ext && d2.fails) = false := by
+        cases hb : (cfg.ext && d1.fails || cfg.ext && d2.fails)
+        · rfl
+        · exact absurd (Or.inl ⟨rfl, hb⟩) hk'
+      have h1 : (cfg.ext && d1.fails) = false := by
+        cases hx : (cfg.ext && d1.fails) <;> simp [hx] at hok ⊢
+      have h2 : (cfg.ext && d2.fails) = false := by
+        cases hx : (cfg.ext && d2.fails) <;> simp [hx, h1] at hok ⊢
+      have hs : (sh.deleteKey cfg k' d1 d2).store.lookup k' = none := by
+        rw [hst, h1]; simp [lookup_erase]
+      have hb : (sh.deleteKey cfg k' d1 d2).bodies.lookup k' = none := by
+        rw [hbo, h2]; simp [blookup_erase]
+      refine ⟨?_, ?_, ?_⟩
+      · intro _ sl hl; rw [hs] at hl; cases hl
+      · intro p e hp hek
+        exact absurd hek (no_live_of_klookup_none hi.hinv hi.kinv hnk hp)
+      · unfold SyncK; rw [hs, hb]; rfl
+    · have hd' : k' ∉ sh.dirty := fun hm => hk' (Or.inr ⟨hkk, hm⟩)
+      have hh' : ¬ H k' := fun hH => hhole ⟨hH, hkk⟩
+      rcases hi.clean k' hd' hh' with ⟨ht, hc, hs⟩
+      rcases deleteKey_lookup_other cfg sh k d1 d2 hkk with ⟨e1, e2⟩
+      refine ⟨?_, ?_, ?_⟩
+      · intro hp sl hl; rw [e1] at hl; exact ht hp sl hl
+      · intro p e hp hek
+        rcases hc p e hp hek with ⟨sl, hsl⟩
+        exact ⟨sl, by rw [e1]; exact hsl⟩
+      · unfold SyncK; rw [e1, e2]; exact hs
+
+/-! ### first critical section -/
+
+theorem dropTracked_deleteKey_comm (cfg : Config) (sh : Shared) (k key : Key) (d1 d2 : Fault) :
+    dropTracked (sh.deleteKey cfg k d1 d2) key = (dropTracked sh key).map fun s => s.deleteKey cfg k d1 d2 := by
+  unfold dropTracked
+  show (match sh.heap.removeKey key with
+    | none => none
+    | some (h, some size) => some { (sh.deleteKey cfg k d1 d2) with heap := h, stored := usub sh.stored size }
+    | some (h, none) => some { (sh.deleteKey cfg k d1 d2) with heap := h }) = _
+  cases sh.heap.removeKey key with
+  | none => rfl
+  | some r =>
+    rcases r with ⟨h, _ | sz⟩ <;> rfl
+
+theorem sec1Expire_ok {cfg : Config} (hmb : cfg.maxBytes < 2 ^ 63) {sh : Shared} (hi : ShInv cfg sh)
+    (key : Key) (d1 d2 : Fault) :
+    ∃ sh', sec1Expire cfg sh key d1 d2 = .pass sh' ∧ ShInv cfg sh' ∧ StoreSub sh'.store sh.store ∧
+      (((cfg.ext && d1.fails) = false) → sh'.store.lookup key = none) := by
+  unfold sec1Expire
+  simp only
+  by_cases hmbp : cfg.maxBytes > 0
+  · rw [if_pos hmbp, dropTracked_deleteKey_comm]
+    rcases dropTracked_ok hmb hmbp hi key with ⟨sh0, hd, hi0, _, hnk⟩
+    rw [hd]
+    simp only [Option.map_some]
+    have := (deleteKey_ok hi0 key d1 d2 hnk).weaken (H' := fun _ => False) (by
+      rintro k ⟨h1 | h1, h2⟩
+      · exact h1
+      · exact h2 h1)
+    rcases dropTracked_frame hd with ⟨e1, _, _⟩
+    refine ⟨_, rfl, this, ?_, ?_⟩
+    · have := deleteKey_sub cfg sh0 key d1 d2
+      rw [e1] at this; exact this
+    · intro hok
+      show (sh0.deleteKey cfg key d1 d2).store.lookup key = none
+      unfold Shared.deleteKey
+      simp only [hok]
+      simp [lookup_erase]
+  · rw [if_neg hmbp]
+    have h0 : cfg.maxBytes = 0 := by omega
+    have hnk : klookup sh.heap.keys key = none := by rw [hi.unused h0]; rfl
+    have := (deleteKey_ok hi key d1 d2 hnk).weaken (H' := fun _ => False) (by rintro k ⟨h1, _⟩; exact h1)
+    refine ⟨_, rfl, this, deleteKey_sub cfg sh key d1 d2, ?_⟩
+    intro hok
+    unfold Shared.deleteKey
+    simp only [hok]
+    simp [lookup_erase]
+
+theorem sec1Expire_not_hit {cfg : Config} {sh : Shared} {key : Key} {d1 d2 : Fault} {o : Out} :
+    sec1Expire cfg sh key d1 d2 ≠ .hit o := by
+  intro h
   unfold sec1Expire at h
   simp only at h
-  by_cases hp : cfg.maxBytes > 0
-  · rw [if_pos hp] at h
-    cases hr : (sh.deleteKey key).heap.remove heapidx key with
-    | none => rw [hr] at h; cases h
-    | some r =>
-      rcases r with ⟨h', _ | sz⟩
-      · rw [hr] at h; simp only [Sec1.pass.injEq] at h; subst h; exact storeSub_erase _ _
-      · rw [hr] at h; simp only [Sec1.pass.injEq] at h; subst h; exact storeSub_erase _ _
-  · rw [if_neg hp] at h
-    simp only [Sec1.pass.injEq] at h; subst h; exact storeSub_erase _ _
+  split at h
+  · split at h <;> cases h
+  · cases h
+
+/-- the outcome of the first section: a hit (state unchanged), or on to the origin handler with the invariant kept
+    and nothing new in the storage -/
+theorem sec1_ok {cfg : Config} (hmb : cfg.maxBytes < 2 ^ 63) {sh : Shared} (hi : ShInv cfg sh)
+    (ts uts : Nat) (q : Req) (key : Key) :
+    (∃ o, sec1 cfg sh ts uts q key = .hit o) ∨
+    (∃ sh', sec1 cfg sh ts uts q key = .pass sh' ∧ ShInv cfg sh' ∧ StoreSub sh'.store sh.store) := by
+  unfold sec1
+  cases lookup1 cfg sh uts key (faultAt q.f1 0) with
+  | none => right; exact ⟨sh, rfl, hi, StoreSub.refl _⟩
+  | some e =>
+    simp only
+    unfold sec1Found
+    by_cases hexp : itemExpired (applyInv q ts e) ts = true
+    · rw [if_pos hexp]; right
+      rcases sec1Expire_ok hmb hi key (faultAt q.f1 1) (faultAt q.f1 2) with ⟨sh', h1, h2, h3, _⟩
+      exact ⟨sh', h1, h2, h3⟩
+    · rw [if_neg hexp]
+      by_cases hhit : ((applyInv q ts e).exp != 0 && !hasDirective q.cc Facts.noCache) = true
+      · rw [if_pos hhit]
+        by_cases hbf : (cfg.ext && (faultAt q.f1 1).fails) = true
+        · rw [if_pos hbf]; right; exact ⟨sh, rfl, hi, StoreSub.refl _⟩
+        · rw [if_neg hbf]; left; exact ⟨_, rfl⟩
+      · rw [if_neg hhit]; right; exact ⟨sh, rfl, hi, StoreSub.refl _⟩
 
 theorem sec1_sub {cfg : Config} {sh sh' : Shared} {ts uts : Nat} {q : Req} {key : Key}
+    (hmb : cfg.maxBytes < 2 ^ 63) (hi : ShInv cfg sh)
     (h : sec1 cfg sh ts uts q key = .pass sh') : StoreSub sh'.store sh.store := by
-  unfold sec1 at h
-  cases hl : lookup1 cfg sh uts key with
-  | none => rw [hl] at h; simp only [Sec1.pass.injEq] at h; subst h; exact StoreSub.refl _
-  | some e =>
-    rw [hl] at h
-    simp only at h
-    unfold sec1Found at h
-    by_cases hexp : itemExpired (applyInv q ts e) ts = true
-    · rw [if_pos hexp] at h; exact sec1Expire_sub h
-    · rw [if_neg hexp] at h
-      by_cases hhit : ((applyInv q ts e).exp != 0 && !hasDirective q.cc Facts.noCache) = true
-      · rw [if_pos hhit] at h; cases h
-      · rw [if_neg hhit] at h; simp only [Sec1.pass.injEq] at h; subst h; exact StoreSub.refl _
+  rcases sec1_ok hmb hi ts uts q key with ⟨o, ho⟩ | ⟨sh2, h2, _, hs⟩
+  · rw [ho] at h; cases h
+  · rw [h2] at h; cases h; exact hs
 
-/-- a hit replays an item the storage holds for this key, unexpired on the cache's clock, and the
-    request neither invalidates nor carries `no-cache` -/
-theorem sec1_hit {cfg : Config} {sh : Shared} {ts uts : Nat} {q : Req} {key : Key} {o : Out}
+/-- a hit replays an item the storage holds for this key, unexpired on the cache's clock; the `Get` of the
+    entry delivered it, the `Get` of the body did not fail; the request carries no `no-cache` and the
+    invalidator did not fire (clock ≥ 1: at 0 Go's `ts - 1` wraps) -/
+theorem sec1_hit {cfg : Config} {sh : Shared} {ts uts : Nat} {q : Req} {key : Key} {o : Out} (hts : 1 ≤ ts)
     (h : sec1 cfg sh ts uts q key = .hit o) :
-    ∃ sl, sh.store.lookup key = some sl ∧ sl.expired uts = false ∧ o = replay cfg sl.item ts ∧ q.inv = false ∧
-      hasDirective q.cc Facts.noCache = false ∧ ts < sl.item.exp := by
+    ∃ sl, sh.store.lookup key = some sl ∧ sl.expired uts = false ∧
+      o = replay cfg { sl.item with body := hitBody cfg sh uts key sl.item } ts ∧
+      q.inv = false ∧ ts < sl.item.exp ∧ hasDirective q.cc Facts.noCache = false ∧
+      (cfg.ext = true → (faultAt q.f1 0).noEntry = false ∧ (faultAt q.f1 1).fails = false) := by
   unfold sec1 at h
-  cases hl : lookup1 cfg sh uts key with
+  cases hl : lookup1 cfg sh uts key (faultAt q.f1 0) with
   | none => rw [hl] at h; cases h
   | some e =>
     rw [hl] at h
@@ -243,91 +452,117 @@ theorem sec1_hit {cfg : Config} {sh : Shared} {ts uts : Nat} {q : Req} {key : Ke
     unfold sec1Found at h
     by_cases hexp : itemExpired (applyInv q ts e) ts = true
     · rw [if_pos hexp] at h
-      -- the expiry branch never yields a hit
-      unfold sec1Expire at h
-      simp only at h
-      by_cases hp : cfg.maxBytes > 0
-      · rw [if_pos hp] at h
-        cases hr : (sh.deleteKey key).heap.remove (applyInv q ts e).heapidx key with
-        | none => rw [hr] at h; cases h
-        | some r => rcases r with ⟨h', _ | sz⟩ <;> (rw [hr] at h; cases h)
-      · rw [if_neg hp] at h; cases h
+      exact absurd h sec1Expire_not_hit
     · rw [if_neg hexp] at h
       by_cases hhit : ((applyInv q ts e).exp != 0 && !hasDirective q.cc Facts.noCache) = true
       · rw [if_pos hhit] at h
-        simp only [Sec1.hit.injEq] at h
-        have hh : (applyInv q ts e).exp ≠ 0 ∧ hasDirective q.cc Facts.noCache = false := by simpa using hhit
-        have hne : ¬ (ts ≥ (applyInv q ts e).exp) := by
-          intro hge; apply hexp; simp [itemExpired, hh.1, hge]
-        -- the invalidator did not fire
-        have hinv : q.inv = false := by
-          cases hq : q.inv with
-          | false => rfl
-          | true =>
-            simp [applyInv, hq] at hne hh
-            all_goals omega
-        have he : applyInv q ts e = e := by simp [applyInv, hinv]
-        rw [he] at h hh hne
-        -- the item comes from the storage (a blank item has exp = 0)
-        unfold lookup1 at hl
-        cases hg : sh.store.get key uts with
-        | none =>
-          rw [hg] at hl
-          by_cases hx : cfg.ext = true
-          · simp [hx] at hl; subst hl; simp [blankItem] at hh
-          · simp [hx] at hl
-        | some it =>
-          rw [hg] at hl
-          simp only [Option.some.injEq] at hl
-          subst hl
-          unfold Store.get at hg
-          cases hlk : sh.store.lookup key with
-          | none => rw [hlk] at hg; cases hg
-          | some sl =>
-            rw [hlk] at hg
-            simp only at hg
-            by_cases hse : sl.expired uts = true
-            · rw [if_pos hse] at hg; cases hg
-            · rw [if_neg hse] at hg
-              simp only [Option.some.injEq] at hg
-              subst hg
-              exact ⟨sl, rfl, by simpa using hse, h.symm, hinv, hh.2, by omega⟩
+        by_cases hbf : (cfg.ext && (faultAt q.f1 1).fails) = true
+        · rw [if_pos hbf] at h; cases h
+        · rw [if_neg hbf] at h
+          simp only [Sec1.hit.injEq] at h
+          have hh : (applyInv q ts e).exp ≠ 0 ∧ hasDirective q.cc Facts.noCache = false := by simpa using hhit
+          have hne : ¬ (ts ≥ (applyInv q ts e).exp) := by
+            intro hge; apply hexp; simp [itemExpired, hh.1, hge]
+          -- the invalidator did not fire
+          have hinv : q.inv = false := by
+            cases hq : q.inv with
+            | false => rfl
+            | true =>
+              have h0 : ¬ ts = 0 := by omega
+              simp [applyInv, hq, h0] at hne hh
+          have he : applyInv q ts e = e := by simp [applyInv, hinv]
+          rw [he] at h hh hne
+          -- the item comes from the storage (a blank item has exp = 0)
+          unfold lookup1 at hl
+          by_cases hg : (cfg.ext && (faultAt q.f1 0).noEntry) = true
+          · rw [if_pos hg] at hl
+            simp only [Option.some.injEq] at hl
+            subst hl; simp [blankItem] at hh
+          · rw [if_neg hg] at hl
+            cases hgs : sh.store.get key uts with
+            | none =>
+              rw [hgs] at hl
+              by_cases hx : cfg.ext = true
+              · simp [hx] at hl; subst hl; simp [blankItem] at hh
+              · simp [hx] at hl
+            | some it =>
+              rw [hgs] at hl
+              simp only [Option.some.injEq] at hl
+              subst hl
+              unfold Store.get at hgs
+              cases hlk : sh.store.lookup key with
+              | none => rw [hlk] at hgs; cases hgs
+              | some sl =>
+                rw [hlk] at hgs
+                simp only at hgs
+                by_cases hse : sl.expired uts = true
+                · rw [if_pos hse] at hgs; cases hgs
+                · rw [if_neg hse] at hgs
+                  simp only [Option.some.injEq] at hgs
+                  subst hgs
+                  refine ⟨sl, rfl, by simpa using hse, h.symm, hinv, by omega, hh.2, ?_⟩
+                  intro hx
+                  constructor
+                  · cases hn : (faultAt q.f1 0).noEntry with
+                    | false => rfl
+                    | true => simp [hx, hn] at hg
+                  · cases hn : (faultAt q.f1 1).fails with
+                    | false => rfl
+                    | true => simp [hx, hn] at hbf
       · rw [if_neg hhit] at h; cases h
-
-theorem evict_sub {mb body : Nat} : ∀ (f : Nat) {sh sh' : Shared}, evict mb body f sh = some sh' →
-    StoreSub sh'.store sh.store := by
-  intro f
-  induction f with
-  | zero => intro sh sh' h; simp [evict] at h
-  | succ f ih =>
-    intro sh sh' h
-    unfold evict at h
-    by_cases hgt : uadd sh.stored body > mb
-    · rw [if_pos hgt] at h
-      cases hr : sh.heap.removeFirst with
-      | none => rw [hr] at h; cases h
-      | some r =>
-        rcases r with ⟨h', x⟩
-        rw [hr] at h
-        simp only at h
-        exact (ih h).trans (storeSub_erase _ _)
-    · rw [if_neg hgt] at h
-      simp only [Option.some.injEq] at h; subst h; exact StoreSub.refl _
 
 /-! ### second critical section -/
 
 theorem sumBytes_pos_ne_nil {l : List HEntry} (h : 0 < sumBytes l) : l ≠ [] := by
   intro hl; subst hl; simp [sumBytes] at h
 
+/-- taking the entry `x` out of the heap and the count (its key's entry still stored: `x.key` joins the holes) -/
+theorem removeEntry_inv {cfg : Config} (hmb : cfg.maxBytes < 2 ^ 63) (hpos : cfg.maxBytes > 0) {sh : Shared}
+    {H : Key → Prop} (hi : ShInvX cfg sh H) {x : HEntry} {h' : Heap} (hfx : sh.heap.find x.idx = some x)
+    (hinv' : HInv h') (hfind' : ∀ y, h'.find y = if y = x.idx then none else sh.heap.find y)
+    (hsum' : sumBytes h'.live + x.bytes = sumBytes sh.heap.live) (hkeys' : h'.keys = kerase sh.heap.keys x.key) :
+    ShInvX cfg { sh with heap := h', stored := usub sh.stored x.bytes } (fun k => H k ∨ k = x.key) := by
+  have hstored_lt : sh.stored < U64 := by
+    have := hi.bound hpos; have := U64_pos; omega
+  have hle : x.bytes ≤ sh.stored := by rw [hi.acc]; omega
+  refine ⟨hinv', kinv_remove hi.kinv hfx hfind' hkeys', hi.nodup, hi.bnodup, ?_, ?_, ?_, ?_⟩
+  · show usub sh.stored x.bytes = sumBytes h'.live
+    rw [usub_eq hle hstored_lt, hi.acc]; omega
+  · intro _
+    show usub sh.stored x.bytes ≤ cfg.maxBytes
+    rw [usub_eq hle hstored_lt]; have := hi.bound hpos; omega
+  · intro h0; omega
+  · intro k hk hhole
+    have hkk : k ≠ x.key := fun h => hhole (Or.inr h)
+    rcases hi.clean k hk (fun h => hhole (Or.inl h)) with ⟨ht, hc, hs⟩
+    refine ⟨?_, ?_, hs⟩
+    · intro hp sl hl
+      rcases ht hp sl hl with ⟨e, he, hek, heb⟩
+      refine ⟨e, ?_, hek, heb⟩
+      show h'.find sl.item.heapidx = some e
+      rw [hfind']
+      have : sl.item.heapidx ≠ x.idx := by
+        intro heq; rw [heq, hfx] at he; cases he; exact hkk hek.symm
+      simp [this, he]
+    · intro p e hp hek
+      have hf' : h'.find e.idx = some e := live_find hinv' hp
+      rw [hfind'] at hf'
+      by_cases hie : e.idx = x.idx
+      · simp [hie] at hf'
+      · simp only [hie, if_false] at hf'
+        rcases (find_some_iff hi.hinv _ _).mp hf' with ⟨_, p0, hp0⟩
+        exact hc p0 e hp0 hek
+
 theorem evict_ok {cfg : Config} (hmb : cfg.maxBytes < 2 ^ 63) (hpos : cfg.maxBytes > 0) (body : Nat)
-    (hbody : body ≤ cfg.maxBytes) :
-    ∀ (f : Nat) {sh : Shared}, ShInv cfg sh → sh.heap.live.length < f →
-      ∃ sh', evict cfg.maxBytes body f sh = some sh' ∧ ShInv cfg sh' ∧ sh'.stored + body ≤ cfg.maxBytes := by
+    (hbody : body ≤ cfg.maxBytes) {H : Key → Prop} :
+    ∀ (f : Nat) (fs : List Fault) {sh : Shared}, ShInvX cfg sh H → sh.heap.live.length < f →
+      ∃ sh' fs', evict cfg body f fs sh = some (sh', fs') ∧ ShInvX cfg sh' H ∧ sh'.stored + body ≤ cfg.maxBytes ∧
+        (∀ k, klookup sh.heap.keys k = none → klookup sh'.heap.keys k = none) ∧ StoreSub sh'.store sh.store := by
   intro f
   induction f with
-  | zero => intro sh _ h; omega
+  | zero => intro fs sh _ h; omega
   | succ f ih =>
-    intro sh hi hlen
+    intro fs sh hi hlen
     unfold evict
     have hb := hi.bound hpos
     have hlt : sh.stored + body < U64 := by have := U64_pos; omega
@@ -335,75 +570,170 @@ theorem evict_ok {cfg : Config} (hmb : cfg.maxBytes < 2 ^ 63) (hpos : cfg.maxByt
     by_cases hgt : sh.stored + body > cfg.maxBytes
     · rw [if_pos hgt]
       have hne : sh.heap.live ≠ [] := sumBytes_pos_ne_nil (by rw [← hi.acc]; omega)
-      rcases removeFirst_ok hi.hinv hne with ⟨h', x, hr, hxm, hinv', _, hfind', hsum', hlen'⟩
+      rcases removeFirst_ok hi.hinv hne with ⟨h', x, hr, hxm, hinv', _, hfind', hsum', hlen', hkeys'⟩
       rw [hr]
       simp only
-      have hle : x.bytes ≤ sh.stored := by rw [hi.acc]; omega
-      have hsl : sh.stored < U64 := by have := U64_pos; omega
       have hfx : sh.heap.find x.idx = some x := by
         rw [find_some_iff hi.hinv]
         exact ⟨rfl, List.mem_iff_getElem?.mp hxm⟩
-      apply ih
-      · refine ⟨hinv', nodup_erase hi.nodup x.key, ?_, ?_, ?_, ?_⟩
-        · show usub sh.stored x.bytes = sumBytes h'.live
-          rw [usub_eq hle hsl, hi.acc]; omega
-        · intro _
-          show usub sh.stored x.bytes ≤ cfg.maxBytes
-          rw [usub_eq hle hsl]; omega
-        · intro h0; omega
-        · intro _
-          exact Tracked_congr rfl rfl (tracked_after_remove (hi.tracked hpos) hfx rfl hfind')
-      · show h'.live.length < f
-        omega
+      have h1 := removeEntry_inv hmb hpos hi hfx hinv' hfind' hsum' hkeys'
+      have hnk : klookup ({ sh with heap := h', stored := usub sh.stored x.bytes } : Shared).heap.keys x.key = none := by
+        show klookup h'.keys x.key = none
+        rw [hkeys', klookup_erase]; simp
+      have h2 := (deleteKey_ok h1 x.key (faultAt fs 0) (faultAt fs 1) hnk).weaken (H' := H) (by
+        rintro k ⟨h | h, hne⟩
+        · exact h
+        · exact absurd h hne)
+      have hsame : ({ (sh.deleteKey cfg x.key (faultAt fs 0) (faultAt fs 1)) with heap := h', stored := usub sh.stored x.bytes } : Shared) =
+          ({ sh with heap := h', stored := usub sh.stored x.bytes } : Shared).deleteKey cfg x.key (faultAt fs 0) (faultAt fs 1) := rfl
+      rw [hsame]
+      rcases ih (if cfg.ext = true then fs.drop 2 else fs) h2 (by show h'.live.length < f; omega) with ⟨sh', fs', he, hi', hroom, hkeep, hsub⟩
+      refine ⟨sh', fs', he, hi', hroom, ?_, ?_⟩
+      · intro k hk
+        apply hkeep
+        show klookup h'.keys k = none
+        rw [hkeys', klookup_erase]
+        by_cases hkk : k = x.key <;> simp [hkk, hk]
+      · exact hsub.trans (deleteKey_sub cfg _ x.key _ _)
     · rw [if_neg hgt]
-      exact ⟨sh, rfl, hi, by omega⟩
+      exact ⟨sh, fs, rfl, hi, by omega, fun _ h => h, StoreSub.refl _⟩
 
-theorem sec2Store_ok {cfg : Config} (hmb : cfg.maxBytes < 2 ^ 63) {sh : Shared} (hi : ShInv cfg sh)
-    (ts uts : Nat) (q : Req) (key : Key)
-    (hroom : cfg.maxBytes > 0 → sh.stored + q.resp.body.length ≤ cfg.maxBytes) :
-    ∃ sh' idx, sec2Store cfg sh ts uts q key = .stored sh' ∧ ShInv cfg sh' ∧
-      sh'.store = sh.store.set key ⟨mkItem cfg q ts idx, storageExp cfg q uts⟩ := by
+theorem setKey_lookup_other (cfg : Config) (sh : Shared) (key : Key) (it : Item) (sexp : Nat) (s1 s2 : Fault)
+    {k' : Key} (h : k' ≠ key) :
+    (sh.setKey cfg key it sexp s1 s2).store.lookup k' = sh.store.lookup k' ∧
+    (sh.setKey cfg key it sexp s1 s2).bodies.lookup k' = sh.bodies.lookup k' := by
+  unfold Shared.setKey
+  simp only
+  constructor
+  · split
+    · rfl
+    · rw [lookup_set]; simp [h]
+  · split
+    · rfl
+    · rw [blookup_set]; simp [h]
+
+/-- `heap.put` + `storedBytes +=` + the `Set`s: closes the hole at `key` -/
+theorem sec2Store_ok {cfg : Config} (hmb : cfg.maxBytes < 2 ^ 63) {sh : Shared} {H : Key → Prop}
+    (hi : ShInvX cfg sh H) (ts uts : Nat) (q : Req) (key : Key) (fs : List Fault)
+    (hroom : cfg.maxBytes > 0 → sh.stored + q.resp.body.length ≤ cfg.maxBytes)
+    (hnokey : klookup sh.heap.keys key = none) :
+    ∃ sh' idx, sec2Store cfg sh ts uts q key fs = .stored sh' ∧ ShInvX cfg sh' (fun k => H k ∧ k ≠ key) ∧
+      (sh'.store = sh.store.set key ⟨mkItem cfg q ts idx, storageExp cfg q uts⟩ ∨ sh'.store = sh.store) := by
+  -- the part common to both branches: what the `Set`s do, given the heap `h'` after `put` (or the unused heap)
+  have common : ∀ (h' : Heap) (n' idx : Nat), HInv h' → KInv h' → n' = sumBytes h'.live →
+      (cfg.maxBytes > 0 → n' ≤ cfg.maxBytes) → (cfg.maxBytes = 0 → h' = Heap.empty) →
+      (cfg.maxBytes > 0 → sh.heap.find idx = none ∧
+        ∀ y, h'.find y = if y = idx then some ⟨key, ts + expSecs cfg q, q.resp.body.length, idx⟩ else sh.heap.find y) →
+      (cfg.maxBytes = 0 → h' = sh.heap) →
+      ShInvX cfg (({ sh with heap := h', stored := n' } : Shared).setKey cfg key (mkItem cfg q ts idx) (storageExp cfg q uts)
+        (faultAt fs 0) (faultAt fs 1)) (fun k => H k ∧ k ≠ key) := by
+    intro h' n' idx hinv' hkinv' hacc' hbound' hunused' hput hsame
+    let sh2 : Shared := { sh with heap := h', stored := n' }
+    let sh3 := sh2.setKey cfg key (mkItem cfg q ts idx) (storageExp cfg q uts) (faultAt fs 0) (faultAt fs 1)
+    have hst : sh3.store = (if (cfg.ext && (faultAt fs 1).fails) = true then sh.store else sh.store.set key ⟨mkItem cfg q ts idx, storageExp cfg q uts⟩) := rfl
+    have hbo : sh3.bodies = (if (cfg.ext && (faultAt fs 0).fails) = true then sh.bodies else sh.bodies.set key ⟨(mkItem cfg q ts idx).body, storageExp cfg q uts⟩) := rfl
+    have hdi : sh3.dirty = markDirty sh.dirty key (cfg.ext && (faultAt fs 0).fails || cfg.ext && (faultAt fs 1).fails) := rfl
+    refine ⟨hinv', hkinv', ?_, ?_, hacc', hbound', hunused', ?_⟩
+    · show (sh3.store.map (·.1)).Nodup
+      rw [hst]; split
+      · exact hi.nodup
+      · exact nodup_set hi.nodup _ _
+    · show (sh3.bodies.map (·.1)).Nodup
+      rw [hbo]; split
+      · exact hi.bnodup
+      · exact bnodup_set hi.bnodup _ _
+    · intro k' hk' hhole
+      have hk'' : k' ∉ sh3.dirty := hk'
+      rw [hdi, mem_markDirty] at hk''
+      by_cases hkk : k' = key
+      · subst hkk
+        have hok : (cfg.ext && (faultAt fs 0).fails || cfg.ext && (faultAt fs 1).fails) = false := by
+          cases hb : (cfg.ext && (faultAt fs 0).fails || cfg.ext && (faultAt fs 1).fails)
+          · rfl
+          · exact absurd (Or.inl ⟨rfl, hb⟩) hk''
+        have h1 : (cfg.ext && (faultAt fs 0).fails) = false := by
+          cases hx : (cfg.ext && (faultAt fs 0).fails) <;> simp [hx] at hok ⊢
+        have h2 : (cfg.ext && (faultAt fs 1).fails) = false := by
+          cases hx : (cfg.ext && (faultAt fs 1).fails) <;> simp [hx, h1] at hok ⊢
+        have hs : sh3.store.lookup k' = some ⟨mkItem cfg q ts idx, storageExp cfg q uts⟩ := by
+          rw [hst, h2]; simp [lookup_set]
+        have hb : sh3.bodies.lookup k' = some ⟨(mkItem cfg q ts idx).body, storageExp cfg q uts⟩ := by
+          rw [hbo, h1]; simp [blookup_set]
+        refine ⟨?_, ?_, ?_⟩
+        · intro hp sl hl
+          have hl' : sh3.store.lookup k' = some sl := hl
+          rw [hs] at hl'; cases hl'
+          refine ⟨⟨k', ts + expSecs cfg q, q.resp.body.length, idx⟩, ?_, rfl, rfl⟩
+          show h'.find (mkItem cfg q ts idx).heapidx = _
+          rw [(hput hp).2]; simp [mkItem]
+        · intro p e hp hek
+          exact ⟨_, hs⟩
+        · show sh3.bodies.lookup k' = (sh3.store.lookup k').map _
+          rw [hs, hb]; rfl
+      · have hd' : k' ∉ sh.dirty := fun hm => hk'' (Or.inr ⟨hkk, hm⟩)
+        have hh' : ¬ H k' := fun hH => hhole ⟨hH, hkk⟩
+        rcases hi.clean k' hd' hh' with ⟨ht, hc, hs⟩
+        rcases setKey_lookup_other cfg sh2 key (mkItem cfg q ts idx) (storageExp cfg q uts) (faultAt fs 0) (faultAt fs 1) hkk with ⟨e1, e2⟩
+        refine ⟨?_, ?_, ?_⟩
+        · intro hp sl hl
+          have hl' : sh3.store.lookup k' = some sl := hl
+          rw [e1] at hl'
+          rcases ht hp sl hl' with ⟨e, he, hek, heb⟩
+          refine ⟨e, ?_, hek, heb⟩
+          show h'.find sl.item.heapidx = some e
+          rw [(hput hp).2]
+          have : sl.item.heapidx ≠ idx := by
+            intro heq; rw [heq, (hput hp).1] at he; cases he
+          simp [this, he]
+        · intro p e hp hek
+          have hp' : h'.live[p]? = some e := hp
+          show ∃ sl, sh3.store.lookup k' = some sl
+          rw [e1]
+          by_cases hpos : cfg.maxBytes > 0
+          · have hf' : h'.find e.idx = some e := live_find hinv' hp'
+            rw [(hput hpos).2] at hf'
+            by_cases hie : e.idx = idx
+            · simp only [hie, if_true, Option.some.injEq] at hf'
+              rw [← hf'] at hek; exact absurd hek.symm hkk
+            · simp only [hie, if_false] at hf'
+              rcases (find_some_iff hi.hinv _ _).mp hf' with ⟨_, p0, hp0⟩
+              exact hc p0 e hp0 hek
+          · have h0 : cfg.maxBytes = 0 := by omega
+            rw [hsame h0] at hp'
+            exact hc p e hp' hek
+        · show sh3.bodies.lookup k' = (sh3.store.lookup k').map _
+          rw [e1, e2]; exact hs
   unfold sec2Store
   by_cases hpos : cfg.maxBytes > 0
   · rw [if_pos hpos]
-    rcases put_ok hi.hinv key (ts + expSecs cfg q) q.resp.body.length with ⟨h', idx, hp, hinv', hfresh, hfind', hsum', _⟩
+    rcases put_ok hi.hinv key (ts + expSecs cfg q) q.resp.body.length with ⟨h', idx, hp, hinv', hfresh, hfind', hsum', _, hkeys'⟩
     rw [hp]
     simp only
     have hr := hroom hpos
     have hlt : sh.stored + q.resp.body.length < U64 := by have := U64_pos; omega
-    refine ⟨_, idx, rfl, ⟨hinv', nodup_set hi.nodup _ _, ?_, ?_, ?_, ?_⟩, rfl⟩
-    · show uadd sh.stored q.resp.body.length = sumBytes h'.live
-      rw [uadd_eq hlt, hsum', hi.acc]
-    · intro _
-      show uadd sh.stored q.resp.body.length ≤ cfg.maxBytes
-      rw [uadd_eq hlt]; exact hr
-    · intro h0; omega
-    · intro _ k sl hl
-      simp only at hl
-      rw [lookup_set] at hl
-      by_cases hk : k = key
-      · simp only [hk, if_true] at hl
-        cases hl
-        refine ⟨⟨key, ts + expSecs cfg q, q.resp.body.length, idx⟩, ?_, hk.symm, rfl⟩
-        show h'.find (mkItem cfg q ts idx).heapidx = _
-        rw [hfind']; simp [mkItem]
-      · simp only [hk, if_false] at hl
-        rcases hi.tracked hpos k sl hl with ⟨e, he, hek, heb⟩
-        refine ⟨e, ?_, hek, heb⟩
-        show h'.find sl.item.heapidx = some e
-        rw [hfind']
-        have : sl.item.heapidx ≠ idx := by
-          intro heq; rw [heq, hfresh] at he; cases he
-        simp [this, he]
+    refine ⟨_, idx, rfl, ?_, ?_⟩
+    · apply common h' (uadd sh.stored q.resp.body.length) idx hinv' (kinv_put hi.kinv hfresh hnokey hfind' hkeys')
+      · rw [uadd_eq hlt, hsum', hi.acc]
+      · intro _; rw [uadd_eq hlt]; exact hr
+      · intro h0; omega
+      · intro _; exact ⟨hfresh, hfind'⟩
+      · intro h0; omega
+    · by_cases hx : (cfg.ext && (faultAt fs 1).fails) = true
+      · right; simp only [Shared.setKey, hx, if_true]
+      · left; simp only [Shared.setKey, hx, if_false]; rfl
   · rw [if_neg hpos]
-    refine ⟨_, 0, rfl, ⟨hi.hinv, nodup_set hi.nodup _ _, hi.acc, hi.bound, hi.unused, ?_⟩, rfl⟩
-    intro hp; exact absurd hp hpos
+    refine ⟨_, 0, rfl, ?_, ?_⟩
+    · have := common sh.heap sh.stored 0 hi.hinv hi.kinv hi.acc hi.bound hi.unused (fun h => absurd h hpos) (fun _ => rfl)
+      exact this
+    · by_cases hx : (cfg.ext && (faultAt fs 1).fails) = true
+      · right; simp only [Shared.setKey, hx, if_true]
+      · left; simp only [Shared.setKey, hx, if_false]; rfl
 
 inductive Sec2Res (cfg : Config) (sh : Shared) (ts uts : Nat) (q : Req) (key : Key) : Sec2 → Prop
   | unreachable : Sec2Res cfg sh ts uts q key .unreachable
   | stored (sh' : Shared) (idx : Nat) (mid : Shared) : ShInv cfg sh' →
-      sh'.store = mid.store.set key ⟨mkItem cfg q ts idx, storageExp cfg q uts⟩ →
-      (∀ k sl, mid.store.lookup k = some sl → sh.store.lookup k = some sl) →
+      (sh'.store = mid.store.set key ⟨mkItem cfg q ts idx, storageExp cfg q uts⟩ ∨ sh'.store = mid.store) →
+      StoreSub mid.store sh.store →
       q.skip = false → Sec2Res cfg sh ts uts q key (.stored sh')
 
 theorem sec2_ok {cfg : Config} (hmb : cfg.maxBytes < 2 ^ 63) {sh : Shared} (hi : ShInv cfg sh)
@@ -420,63 +750,105 @@ theorem sec2_ok {cfg : Config} (hmb : cfg.maxBytes < 2 ^ 63) {sh : Shared} (hi :
       · rw [if_pos hpos]
         have hbody : q.resp.body.length ≤ cfg.maxBytes := by
           simp [hpos] at hbig; exact hbig
-        rcases evict_ok hmb hpos _ hbody (sh.heap.live.length + 1) hi (Nat.lt_succ_self _) with ⟨sh1, he, hi1, hroom⟩
+        rcases dropTracked_ok hmb hpos hi key with ⟨sh0, hd, hi0, _, hnk0⟩
+        rw [hd]
+        simp only
+        rcases evict_ok hmb hpos _ hbody (sh0.heap.live.length + 1) q.f2 hi0 (Nat.lt_succ_self _) with
+          ⟨sh1, fs1, he, hi1, hroom, hkeep, hsub⟩
         rw [he]
         simp only
-        rcases sec2Store_ok hmb hi1 ts uts q key (fun _ => hroom) with ⟨sh', idx, hs, hi', hst⟩
+        rcases sec2Store_ok hmb hi1 ts uts q key fs1 (fun _ => hroom) (hkeep key hnk0) with ⟨sh', idx, hs, hi', hst⟩
         rw [hs]
-        exact .stored sh' idx sh1 hi' hst (evict_sub _ he) hskip'
+        refine .stored sh' idx sh1 (hi'.weaken ?_) hst ?_ hskip'
+        · rintro k ⟨h1 | h1, h2⟩
+          · exact h1
+          · exact h2 h1
+        · rw [← (dropTracked_frame hd).1]; exact hsub
       · rw [if_neg hpos]
-        rcases sec2Store_ok hmb hi ts uts q key (fun h => absurd h hpos) with ⟨sh', idx, hs, hi', hst⟩
+        have h0 : cfg.maxBytes = 0 := by omega
+        have hnk : klookup sh.heap.keys key = none := by rw [hi.unused h0]; rfl
+        rcases sec2Store_ok hmb hi ts uts q key q.f2 (fun h => absurd h hpos) hnk with ⟨sh', idx, hs, hi', hst⟩
         rw [hs]
-        exact .stored sh' idx sh hi' hst (fun _ _ h => h) hskip'
+        exact .stored sh' idx sh (hi'.weaken (by rintro k ⟨h1, _⟩; exact h1)) hst (StoreSub.refl _) hskip'
 
+/-! ### a hit of a key that is in step replays the body its entry was stored with -/
 
-/-! ### the storage never holds more bytes than the heap accounts for -/
+theorem hitBody_sync {cfg : Config} {sh : Shared} {uts : Nat} {key : Key} {sl : Slot} (hs : SyncK sh key)
+    (hl : sh.store.lookup key = some sl) (hx : sl.expired uts = false) :
+    hitBody cfg sh uts key sl.item = sl.item.body := by
+  unfold hitBody
+  by_cases he : cfg.ext = true
+  · rw [if_pos he]
+    unfold SyncK at hs
+    rw [hl] at hs
+    simp only [Option.map_some] at hs
+    unfold BStore.get
+    rw [hs]
+    simp only
+    have : (BSlot.expired ⟨sl.item.body, sl.sexp⟩ uts) = sl.expired uts := rfl
+    rw [this, hx]; rfl
+  · rw [if_neg he]
 
-def sumIf (l : List HEntry) (p : HEntry → Bool) : Nat := sumBytes (l.filter p)
+/-! ### accounting: when no key is dirty, the count is exactly what the cache has stored -/
 
-theorem sumIf_le (l : List HEntry) (p : HEntry → Bool) : sumIf l p ≤ sumBytes l := by
-  unfold sumIf
+theorem sum_split_key {β} (kb : β → Key) (wb : β → Nat) : ∀ (l : List β), (l.map kb).Nodup → ∀ e ∈ l,
+    (l.map wb).sum = wb e + ((l.filter fun x => kb x != kb e).map wb).sum := by
+  intro l
   induction l with
-  | nil => simp [sumBytes]
-  | cons a t ih =>
-    by_cases h : p a = true
-    · simp [List.filter_cons, h, sumBytes_cons]; exact ih
-    · simp [List.filter_cons, h, sumBytes_cons]; omega
-
-theorem mem_le_sumIf (l : List HEntry) (p : HEntry → Bool) (e : HEntry) (he : e ∈ l) (hp : p e = true) :
-    e.bytes ≤ sumIf l p := by
-  unfold sumIf
-  induction l with
-  | nil => cases he
-  | cons a t ih =>
+  | nil => intro _ e he; cases he
+  | cons a r ih =>
+    intro hn e he
+    simp only [List.map_cons, List.nodup_cons] at hn
     rcases List.mem_cons.mp he with h | h
-    · subst h; simp [List.filter_cons, hp, sumBytes_cons]
-    · have := ih h
-      by_cases hpa : p a = true
-      · simp [List.filter_cons, hpa, sumBytes_cons]; omega
-      · simp [List.filter_cons, hpa]; exact this
+    · subst h
+      have hr : r.filter (fun x => kb x != kb e) = r := by
+        apply List.filter_eq_self.mpr
+        intro x hx
+        have : kb x ≠ kb e := fun heq => hn.1 (List.mem_map.mpr ⟨x, hx, heq⟩)
+        simpa using this
+      simp [List.filter_cons, hr]
+    · have hne : kb a ≠ kb e := fun heq => hn.1 (List.mem_map.mpr ⟨e, h, heq.symm⟩)
+      have := ih hn.2 e h
+      simp [List.filter_cons, hne]
+      omega
 
-theorem sumIf_or (l : List HEntry) (p q : HEntry → Bool) (hd : ∀ e, ¬ (p e = true ∧ q e = true)) :
-    sumIf l (fun e => p e || q e) = sumIf l p + sumIf l q := by
-  unfold sumIf
-  induction l with
-  | nil => simp [sumBytes]
+/-- a one-to-one correspondence by key between two lists, weights agreeing: equal sums -/
+theorem bij_sum {α β} (kb : β → Key) (wa : α → Nat) (wb : β → Nat) :
+    ∀ (s : List (Key × α)) (l : List β), (s.map (·.1)).Nodup → (l.map kb).Nodup →
+    (∀ k a, (k, a) ∈ s → ∃ e, e ∈ l ∧ kb e = k ∧ wb e = wa a) →
+    (∀ e ∈ l, kb e ∈ s.map (·.1)) → (s.map fun p => wa p.2).sum = (l.map wb).sum := by
+  intro s
+  induction s with
+  | nil =>
+    intro l _ _ _ hc
+    cases l with
+    | nil => rfl
+    | cons a r => have := hc a (by simp); simp at this
   | cons a t ih =>
-    have := hd a
-    cases hp : p a <;> cases hq : q a <;> simp [List.filter_cons, hp, hq, sumBytes_cons] at this ⊢ <;> omega
+    intro l hn hl hb hc
+    rcases a with ⟨ak, av⟩
+    simp only [List.map_cons, List.nodup_cons] at hn
+    rcases hb ak av (by simp) with ⟨e, hel, hek, hew⟩
+    have hsplit := sum_split_key kb wb l hl e hel
+    have hl' : ((l.filter fun x => kb x != kb e).map kb).Nodup :=
+      List.Nodup.sublist (List.Sublist.map _ List.filter_sublist) hl
+    have := ih (l.filter fun x => kb x != kb e) hn.2 hl' (by
+      intro k a hm
+      rcases hb k a (List.mem_cons_of_mem _ hm) with ⟨e', he', hek', hew'⟩
+      refine ⟨e', List.mem_filter.mpr ⟨he', ?_⟩, hek', hew'⟩
+      have : k ≠ ak := fun heq => hn.1 (List.mem_map.mpr ⟨(k, a), hm, heq⟩)
+      rw [hek', hek]; simpa using this) (by
+      intro e' he'
+      rcases List.mem_filter.mp he' with ⟨h1, h2⟩
+      have := hc e' h1
+      simp only [List.map_cons, List.mem_cons] at this
+      rcases this with h | h
+      · rw [h, ← hek] at h2; simp at h2
+      · exact h)
+    simp only [List.map_cons, List.sum_cons]
+    rw [hsplit, ← this, hew]
 
 def totalBody (s : Store) : Nat := (s.map fun p => p.2.item.body.length).sum
-
-theorem held_le_total (s : Store) (uts : Nat) : s.held uts ≤ totalBody s := by
-  unfold Store.held totalBody
-  induction s with
-  | nil => simp
-  | cons a t ih =>
-    by_cases h : (!a.2.expired uts) = true
-    · simp [List.filter_cons, h]; omega
-    · simp [List.filter_cons, h]; omega
 
 theorem lookup_of_mem {s : Store} (hn : (s.map (·.1)).Nodup) {k : Key} {sl : Slot} (hm : (k, sl) ∈ s) :
     s.lookup k = some sl := by
@@ -492,101 +864,188 @@ theorem lookup_of_mem {s : Store} (hn : (s.map (·.1)).Nodup) {k : Key} {sl : Sl
         exact hn.1 (List.mem_map.mpr ⟨(ak, sl), h, rfl⟩)
       simp [Store.lookup, hne]; exact ih hn.2 h
 
-/-- every pair in `s` is backed by a live entry of its key and size → Σ body sizes ≤ Σ entry sizes -/
-theorem total_le_sumIf (live : List HEntry) :
-    ∀ (s : Store), (s.map (·.1)).Nodup →
-      (∀ k sl, (k, sl) ∈ s → ∃ e, e ∈ live ∧ e.key = k ∧ e.bytes = sl.item.body.length) →
-      totalBody s ≤ sumIf live (fun e => (s.map (·.1)).contains e.key) := by
-  intro s
+theorem mem_of_lookup {s : Store} {k : Key} {sl : Slot} (h : s.lookup k = some sl) : (k, sl) ∈ s := by
   induction s with
-  | nil => intro _ _; simp [totalBody]
+  | nil => simp [Store.lookup] at h
   | cons a t ih =>
-    intro hn hb
+    rcases a with ⟨ak, asl⟩
+    by_cases hk : ak = k
+    · simp [Store.lookup, hk] at h; subst h; subst hk; simp
+    · simp [Store.lookup, hk] at h
+      exact List.mem_cons_of_mem _ (ih h)
+
+theorem mem_keys_of_lookup {s : Store} {k : Key} {sl : Slot} (h : s.lookup k = some sl) : k ∈ s.map (·.1) :=
+  List.mem_map.mpr ⟨(k, sl), mem_of_lookup h, rfl⟩
+
+theorem blookup_of_mem {s : BStore} (hn : (s.map (·.1)).Nodup) {k : Key} {sl : BSlot} (hm : (k, sl) ∈ s) :
+    s.lookup k = some sl := by
+  induction s with
+  | nil => cases hm
+  | cons a t ih =>
     rcases a with ⟨ak, asl⟩
     simp only [List.map_cons, List.nodup_cons] at hn
-    have ht := ih hn.2 (fun k sl hm => hb k sl (List.mem_cons_of_mem _ hm))
-    rcases hb ak asl (by simp) with ⟨e, hel, hek, heb⟩
-    have h1 : sumIf live (fun e => ((ak, asl) :: t).map (·.1) |>.contains e.key) =
-        sumIf live (fun e => (e.key == ak) || (t.map (·.1)).contains e.key) := by
-      congr 1
-    rw [h1, sumIf_or live (fun e => e.key == ak) (fun e => (t.map (·.1)).contains e.key)]
-    · have h2 := mem_le_sumIf live (fun e => e.key == ak) e hel (by simp [hek])
-      simp only [totalBody, List.map_cons, List.sum_cons] at ht ⊢
-      omega
-    · intro e' ⟨ha, hb'⟩
-      have : e'.key = ak := by simpa using ha
-      rw [this] at hb'
-      exact hn.1 (by simpa using hb')
+    rcases List.mem_cons.mp hm with h | h
+    · cases h; simp [BStore.lookup]
+    · have hne : ¬ ak = k := by
+        intro heq; subst heq
+        exact hn.1 (List.mem_map.mpr ⟨(ak, sl), h, rfl⟩)
+      simp [BStore.lookup, hne]; exact ih hn.2 h
 
-theorem held_le_stored_of {cfg : Config} {sh : Shared} (hi : ShInv cfg sh) (hpos : cfg.maxBytes > 0) (uts : Nat) :
-    sh.store.held uts ≤ sh.stored := by
-  have ht := hi.tracked hpos
-  have h1 := held_le_total sh.store uts
-  have h2 := total_le_sumIf sh.heap.live sh.store hi.nodup (by
-    intro k sl hm
-    rcases ht k sl (lookup_of_mem hi.nodup hm) with ⟨e, he, hek, heb⟩
+theorem mem_of_blookup {s : BStore} {k : Key} {sl : BSlot} (h : s.lookup k = some sl) : (k, sl) ∈ s := by
+  induction s with
+  | nil => simp [BStore.lookup] at h
+  | cons a t ih =>
+    rcases a with ⟨ak, asl⟩
+    by_cases hk : ak = k
+    · simp [BStore.lookup, hk] at h; subst h; subst hk; simp
+    · simp [BStore.lookup, hk] at h
+      exact List.mem_cons_of_mem _ (ih h)
+
+theorem keys_nodup {h : Heap} (hi : HInv h) (hk : KInv h) : (h.live.map (·.key)).Nodup := by
+  rw [List.nodup_iff_pairwise_ne, List.pairwise_iff_getElem]
+  intro i j hil hjl hij heq
+  simp only [List.length_map] at hil hjl
+  simp only [List.getElem_map] at heq
+  have h1 : h.live[i]? = some h.live[i] := List.getElem?_eq_getElem hil
+  have h2 : h.live[j]? = some h.live[j] := List.getElem?_eq_getElem hjl
+  have k1 := live_klookup hi hk h1
+  have k2 := live_klookup hi hk h2
+  rw [heq, k2] at k1
+  injection k1 with k1
+  have p1 := hi.live_ok i _ h1
+  have p2 := hi.live_ok j _ h2
+  rw [k1, p1] at p2
+  injection p2 with p2
+  omega
+
+/-- `storedBytes` = the sum of the body sizes of everything the cache has stored and neither deleted nor
+    replaced (whether or not the storage itself has meanwhile let some of it lapse) – provided no `Set` /
+    `Delete` failure is outstanding -/
+theorem stored_eq_total_of {cfg : Config} {sh : Shared} (hi : ShInv cfg sh) (hpos : cfg.maxBytes > 0)
+    (hd : sh.dirty = []) : sh.stored = totalBody sh.store := by
+  rw [hi.acc]
+  symm
+  unfold totalBody sumBytes
+  apply bij_sum (·.key) (fun sl : Slot => sl.item.body.length) (·.bytes) sh.store sh.heap.live hi.nodup (keys_nodup hi.hinv hi.kinv)
+  · intro k sl hm
+    rcases hi.tracked hpos hd k sl (lookup_of_mem hi.nodup hm) with ⟨e, he, hek, heb⟩
     rcases (find_some_iff hi.hinv _ _).mp he with ⟨_, p, hp⟩
-    exact ⟨e, List.mem_of_getElem? hp, hek, heb⟩)
-  have h3 := sumIf_le sh.heap.live (fun e => (sh.store.map (·.1)).contains e.key)
-  rw [hi.acc]; omega
+    exact ⟨e, List.mem_of_getElem? hp, hek, heb⟩
+  · intro e he
+    rcases List.mem_iff_getElem?.mp he with ⟨p, hp⟩
+    rcases hi.covered hd p e hp with ⟨sl, hsl⟩
+    exact mem_keys_of_lookup hsl
 
-/-! ### invalidation and expiry erase the entry -/
+/-- bytes of the stored bodies the storage has let lapse by its own clock (TTL) -/
+def Store.lapsed (s : Store) (uts : Nat) : Nat :=
+  ((s.filter fun p => p.2.expired uts).map fun p => p.2.item.body.length).sum
 
-theorem sec1Expire_erases {cfg : Config} {sh sh' : Shared} {key : Key} {heapidx : Nat}
-    (h : sec1Expire cfg sh key heapidx = .pass sh') : sh'.store.lookup key = none := by
-  have he : (sh.store.erase key).lookup key = none := by rw [lookup_erase]; simp
-  unfold sec1Expire at h
-  simp only at h
-  by_cases hp : cfg.maxBytes > 0
-  · rw [if_pos hp] at h
-    cases hr : (sh.deleteKey key).heap.remove heapidx key with
-    | none => rw [hr] at h; cases h
-    | some r =>
-      rcases r with ⟨h', _ | sz⟩
-      · rw [hr] at h; simp only [Sec1.pass.injEq] at h; subst h; exact he
-      · rw [hr] at h; simp only [Sec1.pass.injEq] at h; subst h; exact he
-  · rw [if_neg hp] at h
-    simp only [Sec1.pass.injEq] at h; subst h; exact he
+theorem held_add_lapsed (s : Store) (uts : Nat) : s.held uts + s.lapsed uts = totalBody s := by
+  unfold Store.held Store.lapsed totalBody
+  induction s with
+  | nil => simp
+  | cons a t ih =>
+    by_cases h : a.2.expired uts = true
+    · simp [List.filter_cons, h]; omega
+    · simp [List.filter_cons, h]; omega
 
-/-- a request for which the invalidator fires, and which finds an entry, leaves none behind -/
-theorem sec1_invalidates {cfg : Config} {sh : Shared} {ts uts : Nat} {q : Req} {key : Key}
-    (hinv : q.inv = true) (hts : ts ≥ 2) (hfound : lookup1 cfg sh uts key ≠ none) :
-    ∀ r, sec1 cfg sh ts uts q key = r → (∃ sh', r = .pass sh' ∧ sh'.store.lookup key = none) ∨ r = .panic := by
-  intro r hr
-  unfold sec1 at hr
-  cases hl : lookup1 cfg sh uts key with
+theorem held_as_weights (s : Store) (uts : Nat) :
+    s.held uts = (s.map fun p => if p.2.expired uts then 0 else p.2.item.body.length).sum := by
+  unfold Store.held
+  induction s with
+  | nil => simp
+  | cons a t ih =>
+    by_cases h : a.2.expired uts = true
+    · simp [List.filter_cons, h]; exact ih
+    · simp [List.filter_cons, h]; exact ih
+
+theorem bheld_as_weights (s : BStore) (uts : Nat) :
+    s.held uts = (s.map fun p => if p.2.expired uts then 0 else p.2.body.length).sum := by
+  unfold BStore.held
+  induction s with
+  | nil => simp
+  | cons a t ih =>
+    by_cases h : a.2.expired uts = true
+    · simp [List.filter_cons, h]; exact ih
+    · simp [List.filter_cons, h]; exact ih
+
+/-- with no failure outstanding the bodies in the storage are those of the entries -/
+theorem bodies_held_eq {cfg : Config} {sh : Shared} (hi : ShInv cfg sh) (hd : sh.dirty = []) (uts : Nat) :
+    sh.bodies.held uts = sh.store.held uts := by
+  rw [held_as_weights, bheld_as_weights]
+  symm
+  have hsync : ∀ k, SyncK sh k := fun k => (hi.clean k (by simp [hd]) (fun h => h)).2.2
+  apply bij_sum (fun p : Key × BSlot => p.1) (fun sl : Slot => if sl.expired uts then 0 else sl.item.body.length)
+    (fun p : Key × BSlot => if p.2.expired uts then 0 else p.2.body.length) sh.store sh.bodies hi.nodup hi.bnodup
+  · intro k sl hm
+    have hl := lookup_of_mem hi.nodup hm
+    have := hsync k
+    unfold SyncK at this
+    rw [hl] at this
+    simp only [Option.map_some] at this
+    exact ⟨(k, ⟨sl.item.body, sl.sexp⟩), mem_of_blookup this, rfl, rfl⟩
+  · intro e he
+    rcases e with ⟨k, b⟩
+    have hb := blookup_of_mem hi.bnodup he
+    have := hsync k
+    unfold SyncK at this
+    rw [hb] at this
+    cases hl : sh.store.lookup k with
+    | none => rw [hl] at this; cases this
+    | some sl => exact mem_keys_of_lookup hl
+
+/-- what the storage physically holds: the `key_body` values of an injected storage, the items of internal/memory -/
+def physHeld (cfg : Config) (sh : Shared) (uts : Nat) : Nat :=
+  if cfg.ext then sh.bodies.held uts else sh.store.held uts
+
+theorem physHeld_eq {cfg : Config} {sh : Shared} (hi : ShInv cfg sh) (hd : sh.dirty = []) (uts : Nat) :
+    physHeld cfg sh uts = sh.store.held uts := by
+  unfold physHeld
+  split
+  · exact bodies_held_eq hi hd uts
+  · rfl
+
+theorem held_le_stored_of {cfg : Config} {sh : Shared} (hi : ShInv cfg sh) (hpos : cfg.maxBytes > 0)
+    (hd : sh.dirty = []) (uts : Nat) : physHeld cfg sh uts ≤ sh.stored := by
+  rw [physHeld_eq hi hd, stored_eq_total_of hi hpos hd, ← held_add_lapsed sh.store uts]
+  omega
+
+/-! ### invalidation and expiry erase the entry (when the storage deletes it) -/
+
+/-- a request for which the invalidator fires, and which finds an entry, leaves none behind – provided the
+    `Delete` of the entry goes through -/
+theorem sec1_invalidates {cfg : Config} (hmb : cfg.maxBytes < 2 ^ 63) {sh : Shared} (hi : ShInv cfg sh)
+    {ts uts : Nat} {q : Req} {key : Key}
+    (hinv : q.inv = true) (hts : ts ≥ 2) (hfound : lookup1 cfg sh uts key (faultAt q.f1 0) ≠ none)
+    (hdel : (cfg.ext && (faultAt q.f1 1).fails) = false) :
+    ∃ sh', sec1 cfg sh ts uts q key = .pass sh' ∧ sh'.store.lookup key = none := by
+  unfold sec1
+  cases hl : lookup1 cfg sh uts key (faultAt q.f1 0) with
   | none => exact absurd hl hfound
   | some e =>
-    rw [hl] at hr
-    simp only at hr
-    unfold sec1Found at hr
+    simp only
+    unfold sec1Found
     have hexp : itemExpired (applyInv q ts e) ts = true := by
-      simp [itemExpired, applyInv, hinv]; omega
-    rw [if_pos hexp] at hr
-    cases hx : sec1Expire cfg sh key (applyInv q ts e).heapidx with
-    | panic => right; rw [← hr, hx]
-    | hit o =>
-      -- the expiry branch never produces a hit
-      exfalso
-      unfold sec1Expire at hx
-      simp only at hx
-      by_cases hp : cfg.maxBytes > 0
-      · rw [if_pos hp] at hx
-        cases hrm : (sh.deleteKey key).heap.remove (applyInv q ts e).heapidx key with
-        | none => rw [hrm] at hx; cases hx
-        | some r' => rcases r' with ⟨h', _ | sz⟩ <;> (rw [hrm] at hx; cases hx)
-      · rw [if_neg hp] at hx; cases hx
-    | pass sh' => left; exact ⟨sh', by rw [← hr, hx], sec1Expire_erases hx⟩
+      have h0 : ¬ ts = 0 := by omega
+      simp [itemExpired, applyInv, hinv, h0]; omega
+    rw [if_pos hexp]
+    rcases sec1Expire_ok hmb hi key (faultAt q.f1 1) (faultAt q.f1 2) with ⟨sh', h1, _, _, h4⟩
+    exact ⟨sh', h1, h4 hdel⟩
 
-/-- an entry found expired on the cache's clock is erased as well -/
-theorem sec1_expired_erases {cfg : Config} {sh sh' : Shared} {ts uts : Nat} {q : Req} {key : Key} {e : Item}
-    (hl : lookup1 cfg sh uts key = some e) (hexp : itemExpired (applyInv q ts e) ts = true)
+/-- an entry found expired on the cache's clock is erased as well (same proviso) -/
+theorem sec1_expired_erases {cfg : Config} (hmb : cfg.maxBytes < 2 ^ 63) {sh sh' : Shared} (hi : ShInv cfg sh)
+    {ts uts : Nat} {q : Req} {key : Key} {e : Item}
+    (hl : lookup1 cfg sh uts key (faultAt q.f1 0) = some e) (hexp : itemExpired (applyInv q ts e) ts = true)
+    (hdel : (cfg.ext && (faultAt q.f1 1).fails) = false)
     (h : sec1 cfg sh ts uts q key = .pass sh') : sh'.store.lookup key = none := by
   unfold sec1 at h
   rw [hl] at h
   simp only at h
   unfold sec1Found at h
   rw [if_pos hexp] at h
-  exact sec1Expire_erases h
+  rcases sec1Expire_ok hmb hi key (faultAt q.f1 1) (faultAt q.f1 2) with ⟨sh2, h1, _, _, h4⟩
+  rw [h1] at h
+  cases h
+  exact h4 hdel
 
 end C14
